@@ -200,3 +200,120 @@ theorem bounded_spec (γ : D → Set Pt) {K : Type} (csat : K → Pt → Prop)
 end
 
 end PPLV.Widen
+
+/-! ### the hypothesis "the certificate is a function of the value" cannot be dropped -/
+namespace PPLV.Widen
+
+/-- elements `(value, padding)`; padding `0` is "top" -/
+def cexγ (a : Nat × Nat) : Set Nat := {k | a.2 = 0 ∨ k < a.1}
+def cexCert (a : Nat × Nat) : Nat := a.2
+/-- a sound "widening" whose every non-stationary application decreases the padding, but which
+    re-represents a stationary value with a *larger* padding -/
+def cexW (x y : Nat × Nat) : Nat × Nat :=
+  if y.2 = 0 then y else if x.2 = 0 then (0, 0) else if x.1 ≤ y.1 then (y.1, y.2 + 5) else (x.1, y.2 - 1)
+/-- the adversary alternates: repeat the current value, then enlarge it by one -/
+def cexZ (i : Nat) (x : Nat × Nat) : Nat × Nat :=
+  if x.2 = 0 then x else if i % 2 = 0 then x else (x.1 + 1, 1)
+
+theorem cex_mem (a : Nat × Nat) (k : Nat) : k ∈ cexγ a ↔ (a.2 = 0 ∨ k < a.1) := Iff.rfl
+
+theorem cex_le_of_subset {x y : Nat × Nat} (h : cexγ y ⊆ cexγ x) (hx : x.2 ≠ 0) (hy : y.2 ≠ 0) : y.1 ≤ x.1 := by
+  by_contra hlt
+  have : x.1 ∈ cexγ y := (cex_mem y x.1).mpr (Or.inr (by omega))
+  have := (cex_mem x x.1).mp (h this)
+  omega
+
+theorem cex_sup (x y : Nat × Nat) (h : cexγ y ⊆ cexγ x) : cexγ x ⊆ cexγ (cexW x y) := by
+  intro k hk
+  rw [cex_mem] at hk ⊢
+  unfold cexW
+  split_ifs with h1 h2 h3
+  · exact Or.inl h1
+  · exact Or.inl rfl
+  · have := cex_le_of_subset h h2 h1
+    rcases hk with hk | hk
+    · exact absurd hk h2
+    · exact Or.inr (by simp only; omega)
+  · rcases hk with hk | hk
+    · exact absurd hk h2
+    · exact Or.inr hk
+
+theorem cex_dec (x y : Nat × Nat) (_h : cexγ y ⊆ cexγ x) (hne : cexγ (cexW x y) ≠ cexγ y) :
+    cexCert (cexW x y) < cexCert y := by
+  unfold cexW at hne ⊢
+  split_ifs at hne ⊢ with h1 h2 h3
+  · exact absurd rfl hne
+  · simp only [cexCert]; omega
+  · exfalso; apply hne
+    ext k
+    simp only [cex_mem]
+    constructor
+    · rintro (h | h)
+      · omega
+      · exact Or.inr h
+    · rintro (h | h)
+      · exact absurd h h1
+      · exact Or.inr h
+  · simp only [cexCert]; omega
+
+theorem cex_hz (i : Nat) (x : Nat × Nat) : cexγ x ⊆ cexγ (cexZ i x) := by
+  intro k hk
+  rw [cex_mem] at hk ⊢
+  unfold cexZ
+  split_ifs with h1 h2
+  · exact Or.inl h1
+  · exact hk
+  · rcases hk with hk | hk
+    · exact absurd hk h1
+    · exact Or.inr (by simp only; omega)
+
+theorem cex_step_even (i k p : Nat) (hp : p ≠ 0) (hi : i % 2 = 0) :
+    cexW (cexZ i (k, p)) (k, p) = (k, p + 5) := by
+  have hz : cexZ i (k, p) = (k, p) := by simp [cexZ, hp, hi]
+  rw [hz]
+  simp [cexW, hp]
+
+theorem cex_step_odd (i k p : Nat) (hp : p ≠ 0) (hi : i % 2 = 1) :
+    cexW (cexZ i (k, p)) (k, p) = (k + 1, p - 1) := by
+  have hz : cexZ i (k, p) = (k + 1, 1) := by simp [cexZ, hp, hi]
+  rw [hz]
+  simp [cexW, hp]
+
+theorem cex_seq (k : Nat) :
+    advSeq cexW (0, 1) cexZ (2 * k) = (k, 1 + 4 * k) ∧
+    advSeq cexW (0, 1) cexZ (2 * k + 1) = (k, 6 + 4 * k) := by
+  induction k with
+  | zero =>
+    refine ⟨rfl, ?_⟩
+    show cexW (cexZ 0 (0, 1)) (0, 1) = _
+    rw [cex_step_even 0 0 1 (by omega) (by omega)]
+  | succ k ih =>
+    obtain ⟨_, ih2⟩ := ih
+    have e1 : advSeq cexW (0, 1) cexZ (2 * (k + 1)) = (k + 1, 1 + 4 * (k + 1)) := by
+      have : 2 * (k + 1) = (2 * k + 1) + 1 := by omega
+      rw [this, advSeq, ih2, cex_step_odd _ _ _ (by omega) (by omega)]
+      congr 1
+      omega
+    refine ⟨e1, ?_⟩
+    rw [advSeq, e1, cex_step_even _ _ _ (by omega) (by omega)]
+    congr 1
+    omega
+
+/-- **Without `hval` the convergence statement is false**: all other hypotheses hold for `cexW`, yet the
+    widened sequence changes its value at every other step for ever. -/
+theorem converges_needs_hval :
+    (∀ x y, cexγ y ⊆ cexγ x → cexγ x ⊆ cexγ (cexW x y)) ∧
+    (∀ x y, cexγ y ⊆ cexγ x → cexγ (cexW x y) ≠ cexγ y → cexCert (cexW x y) < cexCert y) ∧
+    (∀ i x, cexγ x ⊆ cexγ (cexZ i x)) ∧
+    ¬ ∃ N, ∀ i ≥ N, cexγ (advSeq cexW (0, 1) cexZ (i + 1)) = cexγ (advSeq cexW (0, 1) cexZ i) := by
+  refine ⟨cex_sup, cex_dec, cex_hz, ?_⟩
+  rintro ⟨N, hN⟩
+  have h := hN (2 * N + 1) (by omega)
+  have e1 : 2 * N + 1 + 1 = 2 * (N + 1) := by omega
+  rw [e1, (cex_seq (N + 1)).1, (cex_seq N).2] at h
+  have : N ∈ cexγ (N + 1, 1 + 4 * (N + 1)) := (cex_mem _ _).mpr (Or.inr (by simp))
+  rw [h] at this
+  have := (cex_mem _ _).mp this
+  simp at this
+
+end PPLV.Widen
